@@ -466,14 +466,14 @@ Proof.
    destruct (geb now (a_expires s)); [discriminate|];
    destruct (validate_binding (w_cfg w) c (t_bind r) no_opts) eqn:Ev; [discriminate|];
    destruct (t_ba r); cbn in H; try discriminate;
-   destruct (negb (validate_resources (w_cfg w) (a_granted_res s) (t_resources r))); [discriminate|];
-   destruct (negb (validate_details (w_cfg w) (a_granted_details s) (t_auth_details r))); [discriminate|];
-   destruct (negb (contains_all_scopes (a_granted s) (t_scope r))); [discriminate|];
+   (   destruct (negb (validate_resources (w_cfg w) _ (t_resources r))); [discriminate|];
+   destruct (negb (validate_details (w_cfg w) _ (t_auth_details r))); [discriminate|];
+   destruct (negb (contains_all_scopes _ (t_scope r))); [discriminate|];
    destruct (hg_result (t_hg r)); [discriminate|];
    destruct (make_token n c GCiba) as [tv tid];
    cbn in H; inversion H; subst st' t; clear H;
    exists c; repeat split; auto; cbn; rewrite ?with_refresh_jkt, ?with_refresh_x5t; auto;
-   eexists; split; [left; reflexivity|]; rewrite with_refresh_id, with_refresh_jkt, with_refresh_x5t; cbn; auto).
+   eexists; split; [left; reflexivity|]; rewrite with_refresh_id, with_refresh_jkt, with_refresh_x5t; cbn; auto)).
 Qed.
 
 (* jwt-bearer: the client is the authenticated one or - nobody named, anonymous use allowed - the
